@@ -182,14 +182,24 @@ def next_op(rng, mode: str, a, mods: list[str], flavour: str):
     tests/test_griddify do), then the decision at the SAME threshold is taken again — returned as ["SEQ", ops]."""
     ncells = len(a.allocations)
     refinable = [i for i, ra in enumerate(a.allocations) if not ra.rect.fixed]
-    if refinable and ncells <= MAX_CELLS // 2 and rng.random() < 0.06:
+    if refinable and ncells <= MAX_CELLS // 4 and rng.random() < 0.08:
         ratios = Q_RATIOS if mode == "Q" else F_RATIOS
         vals = sorted({v for i in refinable for v in a.allocations[i].alloc.values()})
         t = rng.choice(vals) if vals and rng.random() < 0.7 else rng.choice(ratios + [1.0])
         cand = [i for i in refinable if a.allocations[i].alloc and all(v <= t for v in a.allocations[i].alloc.values())] or refinable
-        first = rng.choice([["M", t], ["M", t], ["R0", t, 1]])
-        last = rng.choice([["R", t, rng.choice([1, 1, 2])], ["R", t, 1], ["M", t]])
+        first = rng.choice([["M", t], ["M", t], ["R0", t, 1], ["U0"], ["U0"], ["G0"], ["G0"]])
+        last = rng.choice([["R", t, rng.choice([1, 1, 2])], ["R", t, 1], ["M", t]]) if first[0] in ("M", "R0") and rng.random() < 0.8 \
+            else rng.choice([["U"], ["G"], ["R", t, 1], ["U0"], ["G0"]])
+        if first[0] in ("U0", "G0") and rng.random() < 0.7:
+            last = [first[0][0]]                      # the same operation again, after the flag change
+        if first[0] == "U0" or last[0] in ("U", "U0"):
+            # uniform refinement only has work to do on unequal depths: flag a cell that is NOT at the maximum depth
+            mx = max(ra.depth for ra in a.allocations)
+            low = [i for i in refinable if a.allocations[i].depth < mx]
+            cand = low or cand
         seq = [first, ["F", rng.choice(cand)]] + ([["F", rng.choice(refinable)]] if rng.random() < 0.2 else []) + [last]
+        if last[0] in ("U0", "G0"):
+            seq.append([last[0][0]])
         return ["SEQ", seq]
     op = _next_op(rng, mode, ncells, mods, flavour)
     t = op[1] if op[0] == "R" else 0.5
@@ -420,8 +430,13 @@ def run_impl(inp: dict, rng=None, flavour: str = "mixed", nops: int = 0):
                     cur = snapshot(a)
                     steps.append((op, None, cur, None))
                     continue
-                if op[0] == "R0":           # refine whose result is discarded: the object itself stays in use
-                    a.refine(op[1], op[2])
+                if op[0] in ("R0", "U0", "G0"):   # operation whose result is discarded: the object itself stays in use
+                    if op[0] == "R0":
+                        a.refine(op[1], op[2])
+                    elif op[0] == "U0":
+                        a.uniform_refinement_depth()
+                    else:
+                        a.griddify()
                     segs.append("-")
                     again = snapshot(a)["cells"]
                     if not cells_equal(again, cur["cells"], Fraction(0)):
@@ -523,6 +538,8 @@ def request(inp: dict, sqrt_ans: float) -> str:
             toks += ["F", str(op[1])]
         elif op[0] == "R0":
             toks += ["R0", sc(op[1], mode), str(op[2])]
+        elif op[0] in ("U0", "G0"):
+            toks.append(op[0])
         elif op[0] == "N":
             toks.append("N")
         elif op[0] == "I":
@@ -759,7 +776,46 @@ def gen_boundary_input(rng) -> dict:
             "ops": [["G"], ["M", 0.5]]}
 
 
+def gen_chain_input(rng, mode: str) -> dict:
+    """cascades of depth 2..6: a big cell S×S and alternating side lines a1 > a2 > a3 (x) and b1 > b2 > b3 (y) of neighbour
+    strips such that every line is refused as a sliver until the PREVIOUS line of the other direction has been cut:
+    a1 <= 1% S but > 1% of S/2 (the y cut at S/2 is always accepted), b1 <= 1% S but > 1% a1, a2 <= 1% (S/2) but > 1% b1,
+    b2 <= 1% a1 but > 1% a2, a3 <= 1% b1 but > 1% b2, b3 <= 1% a2 but > 1% a3.  `griddify` needs about d/2 + 2 rounds of its
+    two sweeps for the first d lines (4 rounds for d = 5: the layout of audit 4, `/tmp/audit4/B/wit12.py`)."""
+    if mode == "Q":
+        k = rng.choice([1.0, 2.0, 0.5, 4.0])
+        S, half = 128.0 * k, 64.0 * k
+        chain = [("x", 1.0), ("y", 0.5), ("x", 0.25), ("y", 1 / 256), ("x", 1 / 256), ("y", 1 / 512)]
+    else:
+        k = rng.choice([1.0, 0.1, 10.0, 3.0])
+        S, half = 100.0 * k, 50.0 * k
+        chain = [("x", 1.0), ("y", 0.5), ("x", 0.25), ("y", 0.005), ("x", 0.004), ("y", 0.002)]
+    d = rng.choice([2, 3, 4, 5, 5, 6, 6])
+    xl = sorted({0.0, S} | {v * k for ax, v in chain[:d] if ax == "x"})
+    yl = sorted({0.0, half, S} | {v * k for ax, v in chain[:d] if ax == "y"})
+    T = S / 16 * rng.choice([1, 2])
+    boxes = [(0.0, 0.0, S, S)]
+    for u, v in zip(xl, xl[1:]):
+        boxes.append((u, S, v, S + T))
+    for u, v in zip(yl, yl[1:]):
+        boxes.append((S, u, S + T, v))
+    swap = rng.random() < 0.5
+    ratios = Q_RATIOS if mode == "Q" else F_RATIOS
+    cells = []
+    for (x0, y0, x1, y1) in boxes:
+        if swap:
+            x0, y0, x1, y1 = y0, x0, y1, x1
+        cells.append({"kind": "V", "v": [(x0 + x1) / 2, (y0 + y1) / 2, x1 - x0, y1 - y0], "region": None,
+                      "alloc": [[rng.choice(MODS[:3]), rng.choice(ratios[1:])]], "depth": rng.choice([0, 0, 1])})
+    if rng.random() < 0.5:
+        rng.shuffle(cells)
+    return {"expect_valid": True, "mode": mode, "family": "chain", "eps": None, "text": True, "cells": cells, "fixed": [],
+            "ops": [["G"], rng.choice([["N"], ["G"], ["M", 0.5]])]}
+
+
 def gen_cascade_input(rng, mode: str) -> dict:
+    if rng.random() < 0.5:
+        return gen_chain_input(rng, mode)
     """layouts on which `griddify` needs SEVERAL rounds of its two sweeps (`fixes/C12_griddify_x_before_y.diff`): a big cell
     S×S with a neighbour side line at distance a from its left side, refused as a sliver (a <= 1% of S) until a y cut at S/2
     (or S/4) has shortened the cell (a > 1% of the piece); the narrow piece of width a then accepts a y line at distance b
